@@ -101,6 +101,15 @@ def run(ctx):
                 verdicts.append(('bad', 'marks the resource off but does not fail its running actions (no cancel_actions)'))
             else:
                 verdicts.append(('bad', 'neither marks the resource off nor fails its actions'))
+        # a delegating override turns off every member that its turn_on() sibling turns on
+        all_deleg = sorted(set(ex.pretty(e.obj) for e in all_evs if e.kind == 'call' and e.q.endswith('::turn_off') and e.obj is not None and e.obj != ('this',)))
+        if all_deleg and not any(e.kind == 'call' and e.q == base_off for e in all_evs):
+            sib = [g for g in P.fns.values() if g['q'] == f['q'].rsplit('::', 1)[0] + '::turn_on' and g.get('blocks')]
+            if sib:
+                gv = A.view(sib[0])
+                ons = sorted(set(ex.pretty(e.obj) for eid in range(len(sib[0]['elems'])) for e in gv.events_of(eid) if e.kind == 'call' and e.q.endswith('::turn_on') and e.obj is not None and e.obj != ('this',)))
+                if ons != all_deleg:
+                    verdicts.append(('bad', 'turn_on() turns on %s but turn_off() only turns off %s' % (ons, all_deleg)))
         bad = [d for s_, d in verdicts if s_ == 'bad']
         ctx.check(not bad and bool(verdicts), 'R1', f['q'].replace(RES, ''), where(f), '; '.join(sorted(set(d for _, d in verdicts))) or 'no path turns the resource off',
                   key='R1|%s|cancel_actions' % f['q'].replace(RES, ''))
@@ -432,7 +441,7 @@ def run(ctx):
                 ctx.holds('R5', '%s::finish: state sequence %s' % (cls, sets), where(f), '')
 
     # ---- R6 host failure kills hosted actors; exit() releases what the victim waits for --------------------------------------------------------------
-    ctx.rule('R6', 'HostImpl::turn_off kills every actor of the host; ActorImpl::exit cancels+finishes every waited activity; on_exit callbacks get wannadie()', 3)
+    ctx.rule('R6', 'HostImpl::turn_off kills every actor of the host, turns off its disks and fails the maestro-owned activities that use it; ActorImpl::exit cancels+finishes every waited activity; on_exit callbacks get wannadie()', 5)
     hto = P.fn(RES + 'HostImpl::turn_off')
     v = A.view(hto)
     okk = False
@@ -450,6 +459,28 @@ def run(ctx):
         cond_blocks = [b for b in body if len(v.succs(b)) > 1 and not v.is_log_branch(b) and b != h['id']]
         okk = bool(kills) and not cond_blocks
     ctx.check(okk, 'R6', 'HostImpl::turn_off kills every actor of actor_list_ unconditionally', where(hto), '', key='R6|HostImpl::turn_off|kill loop')
+    # the same function turns off what hangs below the host (its disks, its VMs) and fails the maestro-owned (detached) activities that use it
+    loops = {}
+    for h in v.loop_heads():
+        if h['t'].get('k') != 'CXXForRangeStmt':
+            continue
+        body = cg.natural_loop(v, h['id'])
+        rng = [d for el in hto['elems'] if el['x'].get('k') == 'Decl' and el.get('l') == h['t'].get('l') for d in el['x'].get('decls', ())
+               if d.get('d', {}).get('n', '').startswith('__range') and d.get('init') is not None]
+        if not rng:
+            continue
+        r = v.norm(rng[0]['init'])
+        calls = [(n.get('c') or {}).get('q', '').rsplit('::', 2)[-2:] for b in sorted(body, reverse=True) for eid in v.blocks[b].get('e', []) for n in ex.walk(hto['elems'][eid]['x']) if n.get('k') == 'Call']
+        cond_blocks = [b for b in body if len(v.succs(b)) > 1 and not v.is_log_branch(b) and b != h['id']]
+        loops[ex.pretty(r)] = (['::'.join(c) for c in calls], bool(cond_blocks))
+    dk = [k_ for k_ in loops if k_.endswith('disks_')]
+    okd = bool(dk) and any(c.endswith('DiskImpl::turn_off') for c in loops[dk[0]][0]) and not loops[dk[0]][1]
+    ctx.check(okd, 'R6', 'HostImpl::turn_off turns off every disk of the host', where(hto), 'loop over disks_: %s' % (loops.get(dk[0]) if dk else 'not found',), key='R6|HostImpl::turn_off|disks')
+    tc = [k_ for k_ in loops if k_.endswith('to_clean')]
+    okm = bool(tc) and [c.rsplit('::', 1)[-1] for c in loops[tc[0]][0] if c.rsplit('::', 1)[-1] in ('cancel', 'set_state')] == ['cancel', 'set_state'] and not loops[tc[0]][1]
+    fails = [e for eid in range(len(hto['elems'])) for e in v.events_of(eid) if e.kind == 'call' and e.q.endswith('ActivityImpl::set_state') and e.args and 'FAILED' in repr(e.args[0])]
+    ctx.check(okm and bool(fails), 'R6', 'HostImpl::turn_off cancels and marks FAILED every maestro-owned activity that uses the host', where(hto), 'loop over the collected activities: %s' % (loops.get(tc[0]) if tc else 'not found',),
+              key='R6|HostImpl::turn_off|maestro activities')
     exf = P.fn(K + 'actor::ActorImpl::exit')
     v = A.view(exf)
     oke = False
